@@ -18,7 +18,7 @@ RULE = ("seeded histories (3..14 state-changing steps plus observation steps) ov
 
 
 def run(ctx):
-    n = ctx.pick(2400, 80_000)
+    n = ctx.pick(1600, 60_000)
     rep = lc.run_tool(ctx, "session", n, samples=2, chunk=ctx.pick(150, 500))
     v = lc.violations("C21", rep)
     c = rep["counters"]
